@@ -11,20 +11,28 @@ dst=/verif/seeded/$name
 mkdir -p "$dst"
 log="$dst/confirm.log"; : > "$log"
 cd "$wt" || exit 2
+# normalise the worktree: HEAD + defect (+ demo); never use git stash (it is shared between worktrees)
+git checkout -q -- . 2>/dev/null
+git apply "$out/patch.diff" 2>>"$log" || { echo "patch does not apply in its own worktree" >> "$log"; }
+if [ ! -f "$wt/tests/seeded_demo.rs" ]; then git apply "$out/demo.diff" 2>>"$log" || echo "demo.diff does not apply" >> "$log"; fi
 echo "== suite with the change" >> "$log"
 suite_ok=1
-for t in "--lib" "--bin adlt" "--test integration_bin -- --skip bin_remote_invalidport"; do
+# a demo that lives inside the binary's test module (private code) is skipped while running the existing suite
+demo_fn=""
+if [ ! -f "$wt/tests/seeded_demo.rs" ]; then demo_fn=$(grep -A2 "^+.*#\[test\]" "$out/demo.diff" | grep -oE "fn [a-zA-Z0-9_]+" | head -1 | cut -d" " -f2); fi
+bin_t="--bin adlt"; [ -n "$demo_fn" ] && bin_t="--bin adlt -- --skip $demo_fn"
+for t in "--lib" "$bin_t" "--test integration_bin -- --skip bin_remote_invalidport"; do
   if cargo test --offline $t >> "$log.full" 2>&1; then echo "PASS cargo test $t" >> "$log"; else
     # the port based remote tests are flaky under load: retry once
     if cargo test --offline $t >> "$log.full" 2>&1; then echo "PASS(retry) cargo test $t" >> "$log"; else echo "FAIL cargo test $t" >> "$log"; suite_ok=0; fi
   fi
 done
 demo_target="--test seeded_demo"
-[ -f "$wt/tests/seeded_demo.rs" ] || demo_target="--bin adlt seeded"
+[ -f "$wt/tests/seeded_demo.rs" ] || demo_target="--bin adlt $demo_fn"
 if cargo test --offline $demo_target >> "$log.full" 2>&1; then demo_with=pass; else demo_with=fail; fi
-git stash push -q -- src
+git apply -R "$out/patch.diff"
 if cargo test --offline $demo_target >> "$log.full" 2>&1; then demo_without=pass; else demo_without=fail; fi
-git stash pop -q
+git apply "$out/patch.diff"
 echo "demo with change: $demo_with ; without: $demo_without" >> "$log"
 rm -f "$log.full"
 # run our checks against it
